@@ -173,7 +173,14 @@ def run(pid, tier, seed, replay, t0):
         account(case, run_case(case), "corpus:" + name)
     budget_s = getattr(mod, "BUDGET_S", {}).get(tier, 120 if tier == "quick" else 900)
     tgen = time.time()
-    for case in mod.gen(rng, tier):
+    import itertools as _it
+    exhaustive_scope = None
+    gens = [mod.gen(rng, tier)]
+    if tier == "thorough" and hasattr(mod, "gen_exhaustive"):
+        # a finite scope enumerated completely (reported in the evidence), before the seeded stream
+        exhaustive_scope = mod.EXHAUSTIVE_SCOPE
+        gens.insert(0, mod.gen_exhaustive())
+    for case in _it.chain(*gens):
         account(case, run_case(case), "gen")
         if len(stats["failures"]) >= 3:
             break
@@ -242,6 +249,9 @@ def run(pid, tier, seed, replay, t0):
         model_requests=drv.requests,
         repo=str(core.REPO),
     )
+    if tier == "thorough" and exhaustive_scope and not stats["features"].get("stopped_by_time_budget"):
+        cov["exhaustive"] = True
+        cov["exhaustive_scope"] = exhaustive_scope
     ev = dict(property_id=pid, tier=tier, seed=seed, level="proof", coverage=cov,
               assumptions=list(mod.ASSUMPTIONS), wall_s=round(wall, 2), violations=1 if rc == 1 else 0)
     core.EVIDENCE.mkdir(exist_ok=True)
